@@ -21,8 +21,9 @@
 //                               verification_core); result = uninterpreted `verify_spec`
 //                               (the TSIG unit proves it is the RFC 8945 5.2 outcome, [C11.verify_request])
 //   PreparedTsigRr::new_from_read   key name, fudge, error as given ([C10.badtime_times] for the times)
-//   axiom_algorithm_name_ok     every Algorithm's static name is a well-formed Name and its MAC is at most
-//                               64 octets: prelude/writer_tsig.rs states this only as postconditions of the
+//   axiom_algorithm_name_ok     every Algorithm's static name is a well-formed Name of at most 13 octets
+//                               ("hmac-sha1." 11, "hmac-sha256." 13: prelude/tsig_alg.rs `name_wire`) and its MAC is at
+//                               most 32 octets (`hash_len`): prelude/writer_tsig.rs states wf / <= 64 only as postconditions of the
 //                               exec fns `Algorithm::{name, output_size}`, but Writer::set_tsig REQUIRES it
 //                               (`tsig_mode_ok`) also on paths where the server does not call them
 //                               (TsigMode::Response).  MISSING in the writer prelude, hence ASSUMED here.
@@ -51,7 +52,11 @@ pub mod tsig_standin_s {
     pub open spec fn message_ok(m: Seq<u8>) -> bool { m.len() >= 12 && u16_at(m, 10) >= 1 }
 
     impl<'a> ReadTsigRr<'a> {
-        pub uninterp spec fn wf(&self) -> bool;
+        /// The part of the representation invariant that concerns the RDATA layout (opaque here).
+        pub uninterp spec fn inv(&self) -> bool;
+        pub open spec fn wf(&self) -> bool {
+            self.inv() && self.key_name_spec().name().wf() && self.algorithm_spec().name().wf()
+        }
         pub uninterp spec fn key_name_spec(&self) -> &LowercaseName;
         pub uninterp spec fn algorithm_spec(&self) -> &LowercaseName;
         pub uninterp spec fn mac_spec(&self) -> Seq<u8>;
@@ -60,12 +65,12 @@ pub mod tsig_standin_s {
 
         #[verifier::external_body]
         pub fn key_name(&self) -> (r: &LowercaseName)
-            ensures r == self.key_name_spec(), self.wf() ==> r.name().wf(),
+            ensures r == self.key_name_spec(),
         { unimplemented!() }
 
         #[verifier::external_body]
         pub fn algorithm(&self) -> (r: &LowercaseName)
-            ensures r == self.algorithm_spec(), self.wf() ==> r.name().wf(),
+            ensures r == self.algorithm_spec(),
         { unimplemented!() }
 
         #[verifier::external_body]
@@ -92,7 +97,7 @@ pub mod tsig_standin_s {
                 rr.rr_type.0 != 250 ==> r == Err::<Self, FromReadRrError>(FromReadRrError::NotTsig),
                 rr.rr_type.0 == 250 && (rr.class.0 != 255 || rr.ttl.0 != 0) ==> r == Err::<Self, FromReadRrError>(FromReadRrError::FormErr),
                 rr.rr_type.0 == 250 && rr.class.0 == 255 && rr.ttl.0 == 0 ==> r is Ok
-                    && (rr.owner.wf() ==> r->Ok_0.wf() && r->Ok_0.key_name_spec().name().wf()
+                    && (rr.owner.wf() ==> r->Ok_0.wf()
                             && r->Ok_0.key_name_spec().name().wire().len() == rr.owner.wire().len()),
         { unimplemented!() }
     }
@@ -111,7 +116,7 @@ pub mod tsig_standin_s {
     /// ASSUMED (see header): facts about the two static algorithm names / output sizes.
     #[verifier::external_body]
     pub proof fn axiom_algorithm_name_ok(a: Algorithm)
-        ensures a.name_spec().name().wf(), a.output_size_spec() <= 64,
+        ensures a.name_spec().name().wf(), a.name_spec().name().wire().len() <= 13, a.output_size_spec() <= 32,
     {}
 
     impl PreparedTsigRr {
